@@ -181,6 +181,8 @@ def e2e_case(payload, nfrag_cuts, validate, api, as_close=False):
     if as_close:
         want = "" if api == "recv" else (R.CLOSE, b"\x03\xe8" + payload)
     elif api == "recv":
+        if not valid:
+            return None  # validation off + recv(): what decoding of ill-formed text yields is not specified here
         want = payload.decode("utf-8")
     else:
         want = (R.TEXT, payload)
